@@ -634,6 +634,8 @@ pub fn composite() {
         fds: Vec::new(),
         pools: Vec::new(),
         direct_enabled: false,
+        other: None,
+        signals: Vec::new(),
     });
     let fd = w.new_fd();
     let fdnum = ops::fd_num(w.fd_ref(fd)).0;
@@ -874,6 +876,8 @@ pub fn composite() {
             fds: Vec::new(),
             pools: Vec::new(),
             direct_enabled: false,
+            other: None,
+            signals: Vec::new(),
         }),
     ));
     alloc::a10(|| {
